@@ -35,7 +35,7 @@ def gen_uniform(rng, quick):
         N = 1
         for l in lv:
             N *= 2 ** l - 1
-        if N <= (45 if quick else 64):
+        if N <= (45 if quick else 49):
             break
     st = [[i / 2 ** l for i in range(2 ** l + 1)] for l in lv]
     M = rng.choice([1, 2, 3, 5, 8, 12, 20, 30])
@@ -54,7 +54,7 @@ def gen_nonuniform(rng, quick, numeric=False):
         N = 1
         for s, _ in sl:
             N *= len(s) - 2
-        if N <= (6 if numeric else (40 if quick else 60)):
+        if N <= (6 if numeric else (40 if quick else 48)):
             break
     st = [s for s, _ in sl]
     M = rng.choice([1, 2, 3, 5, 8, 12, 20, 30])
@@ -482,8 +482,8 @@ def process(chk, cases, verbose=False):
             samples.append(dict(case={kk: c[kk] for kk in c if kk != 'points'}, impl_surpluses=ri['alphas'][:8],
                                 model_surpluses=[float(x) for x in qvec(res2[(i, 'finish')][2])][:8]))
     chk.record_cases(len(cases), keys,
-                     'DensityEstimation direct calls: uniform level vectors (d 1..3, N<=64), non-uniform stripes (dyadic subsets, '
-                     'd 1..3, N<=60), grids beyond the 200-point threshold (rhs/interpolation), StandardCombi runs (lmax<=3); '
+                     'DensityEstimation direct calls: uniform level vectors (d 1..3, N<=49), non-uniform stripes (dyadic subsets, '
+                     'd 1..3, N<=48), grids beyond the 200-point threshold (rhs/interpolation), StandardCombi runs (lmax<=3); '
                      'data on dyadic lattices incl. grid lines and the boundary, lambda in {0,.01,.125,.25,.5,1}, mass lumping, '
                      'labels, numeric entries; non-trivial = at least 3 grid points and 2 samples (combi: d>=2); distinct by full case',
                      samples)
@@ -593,12 +593,12 @@ def run(chk):
     rng = chk.rng
     q = chk.quick
     cases = list(CORPUS)
-    cases += [gen_uniform(rng, q) for _ in range(chk.n(70, 1500))]
-    cases += [gen_nonuniform(rng, q) for _ in range(chk.n(90, 2000))]
-    cases += [gen_nonuniform(rng, q, numeric=True) for _ in range(chk.n(3, 40))]
-    cases += [gen_large(rng, True) for _ in range(chk.n(6, 60))]
-    cases += [gen_large(rng, False) for _ in range(chk.n(6, 60))]
-    cases += [gen_combi(rng) for _ in range(chk.n(10, 150))]
+    cases += [gen_uniform(rng, q) for _ in range(chk.n(70, 400))]
+    cases += [gen_nonuniform(rng, q) for _ in range(chk.n(90, 500))]
+    cases += [gen_nonuniform(rng, q, numeric=True) for _ in range(chk.n(3, 12))]
+    cases += [gen_large(rng, True) for _ in range(chk.n(6, 20))]
+    cases += [gen_large(rng, False) for _ in range(chk.n(6, 20))]
+    cases += [gen_combi(rng) for _ in range(chk.n(10, 40))]
     process(chk, cases)
 
 
